@@ -58,7 +58,8 @@ MANIFEST = {
             'independently.'
             '  Second session: the resolved config of every cell is compared value by value with the shipped entry overlaid with the schema (computed from the json files); a third of the sizing cases prepare 1-3 earlier pilots of the same bulk with the same resolved config object first, which must leave it unchanged.'
             '  After preparing a pilot the shared master configs must be unchanged (resolution-alters-shared-config).'
-            '  Every cell whose job manager endpoint names one batch system for which a PSI/J executor is installed must be accepted by the real PSI/J pilot launcher (can_launch); the endpoint scheme is parsed independently, transports and batch system in either order.',
+            '  Every cell whose job manager endpoint names one batch system for which a PSI/J executor is installed must be accepted by the real PSI/J pilot launcher (can_launch); the endpoint scheme is parsed independently, transports and batch system in either order.'
+            '  For the cells the PSI/J launcher accepts, the real launch_pilots runs against a capturing executor: the job it submits asks for the node and process counts of the job description.',
     'note': 'Session and launcher objects are built with __new__ (no bridges, '
             'no job submission); the matrix part is exhaustive (flag in the '
             'evidence), the sizing part is sampled plus a fixed boundary sweep '
@@ -593,10 +594,12 @@ def check_cell(session, lc, broken, raw, resource, schema, res):
 
     # -- a description naming the cell becomes a job description ---------------
     size = {'nodes': 1} if rcfg.cores_per_node else {'cores': 4}
+    jd_cell = None
     try:
         jd, acfg, told = prepare(session, lc, resource, schema, rcfg, size)
         if jd is None or told is None:
             raise RuntimeError('no job description / agent config produced')
+        jd_cell = jd
         res.count('cell_jobs_prepared')
         out.append('job=%sn/%sc/%sg' % (jd.node_count, jd.total_cpu_count,
                                         jd.total_gpu_count))
@@ -629,6 +632,42 @@ def check_cell(session, lc, broken, raw, resource, schema, res):
                     'a PSI/J executor exists, but the PSI/J pilot launcher '
                     'answers %r' % (ep, parts[0], acc), value=ep)
             out.append('launcher=%s' % acc)
+
+            # ... and the batch job it submits asks for what the job
+            # description says (node and process counts)
+            if acc is True and jd_cell is not None:
+                lch    = _psij_launcher()
+                schema_ = lch._get_schema(rcfg)
+                class _Capture(object):
+                    job = None
+                    def submit(self, job): _Capture.job = job
+                saved = lch._jex.get(schema_)
+                lch._jex[schema_] = _Capture()
+                try:
+                    lch.launch_pilots(rcfg, [{'uid': 'pilot.c17',
+                                              'jd_dict': jd_cell}])
+                    rs = _Capture.job.spec.resources
+                    nodes = rs.node_count
+                    procs = rs.process_count
+                    if procs is None and rs.processes_per_node is not None:
+                        procs = (nodes or 1) * rs.processes_per_node
+                    res.count('batch_job_requests_checked')
+                    if procs != jd_cell.total_cpu_count or \
+                            (nodes or 0) != (jd_cell.node_count or 0):
+                        bad('batch-job-request-differs',
+                            'the PSI/J job asks for %s nodes / %s processes, '
+                            'the job description (and the agent) say %s nodes '
+                            '/ %s cores' % (nodes, procs, jd_cell.node_count,
+                                            jd_cell.total_cpu_count))
+                except Exception as e:
+                    bad('batch-job-not-submitted', 'PSI/J launch_pilots '
+                        'raised %r' % e, exception=repr(e))
+                finally:
+                    lch._jobs.clear(); lch._pilots.clear()
+                    if saved is None:
+                        lch._jex.pop(schema_, None)
+                    else:
+                        lch._jex[schema_] = saved
 
     ok = len(res.violations) == n0
     return ('ok ' if ok else 'BAD ') + ' '.join(out), True
